@@ -287,6 +287,13 @@ def _push_paths(n, targets):
         ids = {x["id"] for x in walk(root) if x.get("k") == "local"}
         if ids & targets:
             return {(1, False)}
+    if k == "call" and not n.get("ctor"):
+        # a helper that is handed `&mut <sequence map>` files the field into that map
+        for a_ in n.get("args") or []:
+            if isinstance(a_, dict) and a_.get("k") == "ref" and a_.get("mut"):
+                x_ = peel(a_.get("e"))
+                if isinstance(x_, dict) and x_.get("k") == "local" and x_.get("id") in targets:
+                    return {(1, False)}
     if k in ("for", "while", "loop", "closure"):
         return {(0, False)}
     cur = {(0, False)}
@@ -320,11 +327,37 @@ def k4(rep, F):
     if len(maps) < 3:
         rep.fail_closed("K4: the three sequence maps were not found (%s)" % sorted(maps.values()))
         return r
+    # a local that is `&mut <one of the maps>` on every path of its initialiser stands for exactly one map
+    def _leaves(e):
+        while isinstance(e, dict) and e.get("k") == "block":
+            if e.get("expr") is None:
+                return [None]
+            e = e["expr"]
+        if isinstance(e, dict) and e.get("k") == "if":
+            return _leaves(e["then"]) + (_leaves(e["else"]) if e.get("else") is not None else [None])
+        if isinstance(e, dict) and e.get("k") == "match":
+            out_ = []
+            for a_ in e.get("arms") or []:
+                out_ += _leaves(a_["body"])
+            return out_
+        return [e]
+    targets_all = set(maps)
+    for n in walk(body):
+        if n.get("k") == "let" and n.get("init") is not None and (n.get("pat") or {}).get("k") == "bind":
+            lv = _leaves(n["init"])
+            if lv and all(isinstance(x, dict) and x.get("k") == "ref" and x.get("mut") and
+                          isinstance(peel(x.get("e")), dict) and peel(x["e"]).get("k") == "local" and
+                          peel(x["e"]).get("id") in maps for x in lv):
+                targets_all.add(n["pat"]["id"])
     loops = []
     for n in walk(body):
         if n.get("k") == "for":
             if any(x.get("k") == "mcall" and x.get("m") == "push" and
-                   {y["id"] for y in walk(x["recv"]) if y.get("k") == "local"} & set(maps) for x in walk(n["body"])):
+                   {y["id"] for y in walk(x["recv"]) if y.get("k") == "local"} & targets_all for x in walk(n["body"])) or \
+                    any(x.get("k") == "call" and any(isinstance(a_, dict) and a_.get("k") == "ref" and a_.get("mut")
+                                                       and isinstance(peel(a_.get("e")), dict)
+                                                       and peel(a_["e"]).get("id") in maps
+                                                       for a_ in x.get("args") or []) for x in walk(n["body"])):
                 loops.append(n)
     if not loops:
         rep.fail_closed("K4: distribution loop not found")
@@ -333,7 +366,7 @@ def k4(rep, F):
     for lp in loops:
         r["instances"] += 1
         r["analysed"] += 1
-        paths = _push_paths(lp["body"], set(maps))
+        paths = _push_paths(lp["body"], targets_all)
         r["paths"] = sorted({c for c, _ in paths})
         for c, _ in sorted(paths):
             if c != 1:
